@@ -397,6 +397,34 @@ fn hash_value(n: &mut Net) -> Vec<u8> {
     n.rng.bytes(l)
 }
 
+
+/// ECDSA signatures may be presented over other even lengths (r and s each padded with leading zeros, or
+/// with leading zeros stripped): re-encode a 64-byte signature that way, optionally zeroing one half.
+fn ecdsa_repad(n: &mut Net, out: &mut RunOut, sig: &[u8]) -> Vec<u8> {
+    if sig.len() != 64 || n.rate == 0 || !n.t.chance(n.rate, 3000) {
+        return sig.to_vec();
+    }
+    let half = [33usize, 34, 40, 48, 64, 31, 24, 16, 1, 0][n.t.usize(10)];
+    let mut r = sig[..32].to_vec();
+    let mut s = sig[32..].to_vec();
+    match n.t.usize(5) {
+        0 => r.iter_mut().for_each(|x| *x = 0),
+        1 => s.iter_mut().for_each(|x| *x = 0),
+        _ => {}
+    }
+    let fit = |v: &[u8], l: usize| -> Vec<u8> {
+        if l >= 32 {
+            let mut o = vec![0u8; l - 32];
+            o.extend_from_slice(v);
+            o
+        } else {
+            v[32 - l..].to_vec()
+        }
+    };
+    out.fault("fault.rawmangle.ecdsa_repadded_signature");
+    [fit(&r, half), fit(&s, half)].concat()
+}
+
 fn ex_p256(n: &mut Net, out: &mut RunOut, tier: Tier) {
     use crrl::p256::{PrivateKey, PublicKey};
     let seed = { let l = 16 + n.t.usize(40); n.rng.bytes(l) };
@@ -409,6 +437,7 @@ fn ex_p256(n: &mut Net, out: &mut RunOut, tier: Tier) {
     out.ev(format_args!("p256 pk={} hv={} sig={}", hex(&pk_enc), hex(&hv), hex(&sig)));
     let bd = bounds_of!(crrl::p256::Scalar, crrl::field::GFp256);
     let sig2 = n.structured(out, &sig, &[(32, true), (32, true)], &bd);
+    let sig2 = ecdsa_repad(n, out, &sig2);
     let pk2 = if pk_enc.len() == 33 { n.structured(out, &pk_enc, &[(1, true), (32, true)], &bd) } else { n.structured(out, &pk_enc, &[(1, true), (32, true), (32, true)], &bd) };
     let hv2 = n.field(out, &hv);
     let skd = n.field(out, &sk.encode());
@@ -446,6 +475,7 @@ fn ex_secp256k1(n: &mut Net, out: &mut RunOut) {
     out.ev(format_args!("secp256k1 pk={} hv={} sig={}", hex(&pk_enc), hex(&hv), hex(&sig)));
     let bd = bounds_of!(crrl::secp256k1::Scalar, crrl::field::GFsecp256k1);
     let sig2 = n.structured(out, &sig, &[(32, true), (32, true)], &bd);
+    let sig2 = ecdsa_repad(n, out, &sig2);
     let pk2 = if pk_enc.len() == 33 { n.structured(out, &pk_enc, &[(1, true), (32, true)], &bd) } else { n.structured(out, &pk_enc, &[(1, true), (32, true), (32, true)], &bd) };
     let hv2 = n.field(out, &hv);
     let skd = n.field(out, &sk.encode());
